@@ -21,4 +21,7 @@ Refines(kind) ==
      /\ r.ok => /\ r.end = mt.end
                 /\ r.calls = [i \in 1..Len(mt.ms) |-> mt.ms[i][1]]
 ResyncRefinesIntended == Refines("A") /\ Refines("O")
+\* the machine-based formulation of the member table equals the grammar-based one (also at the depth limit:
+\* MC_HandlersImpl_depth.cfg runs this with GMaxDepth = 2)
+TablesAgree == \A kind \in {"A", "O"} : MemberTableM(inp, kind) = MemberTable(inp, kind)
 =============================================================================
